@@ -6,6 +6,7 @@ import (
 	"fmt"
 	"time"
 
+	"verifharness/explore"
 	"verifharness/filedrv"
 	"verifharness/fw"
 	"verifharness/ref"
@@ -76,7 +77,7 @@ func report(c *fw.Ctx, res filedrv.Result, locus, desc string, detail interface{
 func runFile(c *fw.Ctx, f filedrv.File) {
 	total := len(f.Expected)
 	// intact, all reader modes, value and pointer targets
-	for mode := 0; mode < filedrv.NumModes; mode++ {
+	for mode := 0; mode < filedrv.NumReadModes; mode++ {
 		for _, ptr := range []bool{false, true} {
 			c.Eval(1)
 			desc := fmt.Sprintf("intact file %s reader %s ptr=%v", f.Name, filedrv.ModeName(mode), ptr)
@@ -183,22 +184,45 @@ func runFile(c *fw.Ctx, f filedrv.File) {
 		name    string
 		meta    []ref.MetaEntry
 		wantErr bool
+		split   []int // entries per metadata map block (nil = one block)
+		sized   bool  // map blocks in the byte-size-prefixed form
 	}
 	schemaJSON := f.SC.Schema.Print(nil)
 	var mvs []mv
-	mvs = append(mvs, mv{"schema-removed", []ref.MetaEntry{{Key: "avro.codec", Val: []byte(f.Codec)}}, true})
-	mvs = append(mvs, mv{"schema-removed-no-codec", nil, true})
-	mvs = append(mvs, mv{"codec-after-schema-swapped-order", []ref.MetaEntry{{Key: "avro.codec", Val: []byte(f.Codec)}, {Key: "avro.schema", Val: []byte(schemaJSON)}}, false})
-	mvs = append(mvs, mv{"extra-user-metadata", []ref.MetaEntry{{Key: "user.note", Val: []byte("hello")}, {Key: "avro.schema", Val: []byte(schemaJSON)}, {Key: "avro.codec", Val: []byte(f.Codec)}}, false})
+	mvs = append(mvs, mv{name: "schema-removed", meta: []ref.MetaEntry{{Key: "avro.codec", Val: []byte(f.Codec)}}, wantErr: true})
+	mvs = append(mvs, mv{name: "schema-removed-no-codec", wantErr: true})
+	mvs = append(mvs, mv{name: "codec-after-schema-swapped-order", meta: []ref.MetaEntry{{Key: "avro.codec", Val: []byte(f.Codec)}, {Key: "avro.schema", Val: []byte(schemaJSON)}}})
+	mvs = append(mvs, mv{name: "extra-user-metadata", meta: []ref.MetaEntry{{Key: "user.note", Val: []byte("hello")}, {Key: "avro.schema", Val: []byte(schemaJSON)}, {Key: "avro.codec", Val: []byte(f.Codec)}}})
 	if f.Codec == "null" {
-		mvs = append(mvs, mv{"codec-absent", ref.StdMeta(schemaJSON, "", false), false})
+		mvs = append(mvs, mv{name: "codec-absent", meta: ref.StdMeta(schemaJSON, "", false)})
 		for _, bad := range []string{"", "Null", "NULL", "bzip2", "zstandard", "xz", "deflate ", " null", "snappy2"} {
-			mvs = append(mvs, mv{fmt.Sprintf("codec=%q", bad), ref.StdMeta(schemaJSON, bad, true), true})
+			mvs = append(mvs, mv{name: fmt.Sprintf("codec=%q", bad), meta: ref.StdMeta(schemaJSON, bad, true), wantErr: true})
+		}
+	}
+	// every way of writing the header's metadata MAP in several blocks (it is an ordinary Avro map): each of the
+	// valid entry orders × every composition into blocks × plain / byte-size-prefixed blocks; and the unknown
+	// codec names again with the codec entry in a block of its own before the schema's
+	for _, base := range []mv{mvs[2], mvs[3], {"schema-then-codec", ref.StdMeta(schemaJSON, f.Codec, true), false, nil, false}} {
+		for _, comp := range explore.Compositions(len(base.meta)) {
+			for _, sized := range []bool{false, true} {
+				if len(comp) == 1 && !sized {
+					continue
+				}
+				v := base
+				v.name = fmt.Sprintf("%s/map-blocks=%v/sized=%v", base.name, comp, sized)
+				v.split, v.sized = comp, sized
+				mvs = append(mvs, v)
+			}
+		}
+	}
+	if f.Codec == "null" {
+		for _, bad := range []string{"", "bzip2", "zstandard"} {
+			mvs = append(mvs, mv{fmt.Sprintf("codec=%q-in-its-own-map-block-first", bad), []ref.MetaEntry{{Key: "avro.codec", Val: []byte(bad)}, {Key: "avro.schema", Val: []byte(schemaJSON)}}, true, []int{1, 1}, false})
 		}
 	}
 	for _, m := range mvs {
 		c.Eval(1)
-		data, _ := ref.WriteFile(m.meta, f.Codec, f.Sync, f.Blocks)
+		data, _ := ref.WriteFileSplit(m.meta, m.split, m.sized, f.Codec, f.Sync, f.Blocks)
 		desc := fmt.Sprintf("file %s with metadata variant %s", f.Name, m.name)
 		locus := f.Codec + "|meta:" + m.name
 		c.Begin(locus, desc)
@@ -236,7 +260,7 @@ func init() {
 			if tier == "thorough" {
 				n = 4
 			}
-			return fmt.Sprintf("file family {3 schemas} × {null,deflate,snappy} × every composition of <=%d records into blocks (+70-record blocks; + per codec two Big files: a 3000-record highly compressible block, and a 3/90/3-record file whose middle block exceeds 100 KiB on the wire so that the reader's buffer grows mid-block — for Big files payload bytes are flipped at every 23rd / 499th site, all other sites fully), written by the reference writer; per file: intact read under 3 reader modes × value/pointer target; callback failing at every record index; EVERY BIT of every block sync marker, of the header sync (when a block exists), of every snappy CRC, of every compressed payload byte (deflate, snappy) and of the magic flipped one at a time; metadata variants (schema removed, codec absent/unknown spellings, reordered, extra keys); a case is one damaged or intact file; non-trivial = ReadFile completed and its result was compared with the oracle", n)
+			return fmt.Sprintf("file family {3 schemas} × {null,deflate,snappy} × every composition of <=%d records into blocks (+70-record blocks; + per codec two Big files: a 3000-record highly compressible block, and a 3/90/3-record file whose middle block exceeds 100 KiB on the wire so that the reader's buffer grows mid-block — for Big files payload bytes are flipped at every 23rd / 499th site, all other sites fully), written by the reference writer; per file: intact read under 5 readers (full, 1-byte, data+EOF, *bytes.Buffer, 16-byte *bufio.Reader) × value/pointer target; files with EMPTY blocks (count 0) first, between and after full blocks; callback failing at every record index; EVERY BIT of every block sync marker, of the header sync (when a block exists), of every snappy CRC, of every compressed payload byte (deflate, snappy) and of the magic flipped one at a time; metadata variants (schema removed, codec absent/unknown spellings, reordered, extra keys, and the metadata map written in every composition of its entries into map blocks, plain and byte-size-prefixed); a case is one damaged or intact file; non-trivial = ReadFile completed and its result was compared with the oracle", n)
 		},
 		Assumptions: []string{
 			"for a flipped payload bit the claim is made only when the reference decompressor (stdlib flate / golang/snappy + CRC) rejects the damaged payload; flips it accepts are counted, not judged",
